@@ -22,4 +22,5 @@ try:
                             "last": lines[-1][:200] if lines else "", "wall": round(time.time() - t0, 1)}
 finally:
     sh("git -C /repo checkout -- .")
+    sh("git -C /repo clean -fdq -- webauthn")      # files a patch added
 print(json.dumps(out, indent=1))
